@@ -6,6 +6,7 @@ mod direct;
 mod hist;
 mod linebuf;
 mod seg;
+mod sqlhist;
 mod ttychild;
 mod udata;
 mod util;
@@ -40,6 +41,7 @@ fn main() {
         "udata" => udata::dump(&mut out),
         "hist" => hist::run_hist(&mut inp, &mut out),
         "fhist" => hist::run_fhist(&mut inp, &mut out),
+        "sqlhist" => sqlhist::run_sqlhist(&mut inp, &mut out),
         "seg" => seg::run(&mut inp, &mut out),
         "direct" => direct::run(&mut inp, &mut out),
         "compl" => compl::run(&mut inp, &mut out),
